@@ -298,6 +298,41 @@ func execC05(sc c05Scenario) *vstat.Outcome {
 	r11 := get(uriC, specC, sc.AEs[3])
 	check("hit-after-others2", sc.AEs[3], r11, hdr)
 
+	// several uncached answers in the scenario's encoding reach pike at the same time (different
+	// URLs, different bodies): each client gets its own
+	{
+		const par = 6
+		bodies := make([][]byte, par)
+		var pw sync.WaitGroup
+		prs := make([]*clientResp, par)
+		for j := 0; j < par; j++ {
+			bodies[j] = genBytes(sc.Size+j, sc.Shape, sc.Seed+uint32(j)+1)
+			specP := fmt.Sprintf("c05-%d-p%d", n, j)
+			c05Up.setSpec(specP, &respSpec{Status: sc.Status, Headers: hdrU, Body: bodies[j], Encoding: sc.UpEnc, DelayMs: 30})
+			defer func(specP string) {
+				c05Up.mu.Lock()
+				delete(c05Up.specs, specP)
+				c05Up.mu.Unlock()
+			}(specP)
+			pw.Add(1)
+			go func(j int, specP string) {
+				defer pw.Done()
+				prs[j] = get(fmt.Sprintf("/c05/%d/p%d", n, j), specP, sc.AEs[j%len(sc.AEs)])
+			}(j, specP)
+		}
+		pw.Wait()
+		for j, r := range prs {
+			ae := sc.AEs[j%len(sc.AEs)]
+			if r.Err != "" || r.Code != sc.Status {
+				out.Violate("C05", "status", "concurrent uncached request %d (AE %q): err %q status %d, the upstream answers %d", j, ae, r.Err, r.Code, sc.Status)
+				continue
+			}
+			if r.DecodeErr != "" || !bytes.Equal(r.Body, bodies[j]) {
+				out.Violate("C05", "body", "concurrent uncached request %d of %d (AE %q, CE %q, upstream encoding %q): the decoded body has %d bytes (hash %s), the upstream's body for this URL has %d bytes (hash %s) %s", j, par, ae, r.Header.Get("Content-Encoding"), sc.UpEnc, len(r.Body), hashOf(r.Body), len(bodies[j]), hashOf(bodies[j]), r.DecodeErr)
+			}
+		}
+	}
+
 	// a HEAD request first, then GETs of the same URL: what the HEAD fetched (headers, no body)
 	// must not become what GET clients are served
 	uriH := fmt.Sprintf("/c05/%d/h", n)
